@@ -25,6 +25,7 @@ type Env struct {
 	pureCtx  bool
 	unfold   int
 	useLocals bool     // identifiers may refer to source-level locals (loop invariants)
+	macroDepth int
 	quantFacts bool    // inside a quantifier body: side facts are collected for the enclosing quantifier
 	assuming  bool     // the clause is being assumed (side facts are conjoined) rather than proved (side facts are hypotheses)
 	factsP   *[]string // side facts (allocatedness of values read from the heap), assumed with the clause
@@ -137,6 +138,8 @@ func (env *Env) resolveType(e ast.Expr) types.Type {
 		if e.Len == nil {
 			return types.NewSlice(env.resolveType(e.Elt))
 		}
+	case *ast.MapType:
+		return types.NewMap(env.resolveType(e.Key), env.resolveType(e.Value))
 	case *ast.InterfaceType:
 		if e.Methods == nil || len(e.Methods.List) == 0 {
 			return types.NewInterfaceType(nil, nil)
@@ -374,6 +377,12 @@ func (env *Env) evalIdent(e *ast.Ident) Val {
 	}
 	if env.useLocals {
 		if v, ok := fc.locals[e.Name]; ok {
+			if fc.localIsAddr[e.Name] {
+				// an addressable local: structs stay references (selector bases), scalars are loaded
+				if pt, ok := v.Typ.Underlying().(*types.Pointer); ok && !isStruct(pt.Elem()) {
+					return fc.deref(env.st, v)
+				}
+			}
 			return v
 		}
 	}
@@ -737,11 +746,14 @@ func (env *Env) evalCall(e *ast.CallExpr) Val {
 			body := sub.evalBool(e.Args[3])
 			sub.factsP = saved
 			fc.inQuant--
-			if len(local) > 0 {
-				if env.assuming {
-					body = And(And(local...), body)
+			if len(local) > 0 && saved != nil {
+				// facts about values read inside the body hold for every index in range:
+				// hand them to the enclosing clause as a universally quantified side fact
+				f := Imp(And(App("<=", lo.T, bv), App("<", bv, hi.T)), And(local...))
+				if pats := selectPatterns(f, bv); len(pats) > 0 {
+					*saved = append(*saved, fmt.Sprintf("(forall ((%s Int)) (! %s :pattern (%s)))", bv, f, pats[0]))
 				} else {
-					body = Imp(And(local...), body)
+					*saved = append(*saved, fmt.Sprintf("(forall ((%s Int)) %s)", bv, f))
 				}
 			}
 			rng := And(App("<=", lo.T, bv), App("<", bv, hi.T))
@@ -750,6 +762,9 @@ func (env *Env) evalCall(e *ast.CallExpr) Val {
 					return boolVal(fmt.Sprintf("(forall ((%s Int)) (! %s :pattern (%s)))", bv, Imp(rng, body), pats[0]))
 				}
 				return boolVal(fmt.Sprintf("(forall ((%s Int)) %s)", bv, Imp(rng, body)))
+			}
+			if pats := selectPatterns(body, bv); len(pats) > 0 && os.Getenv("GOVC_NOPATTERNS") == "" {
+				return boolVal(fmt.Sprintf("(exists ((%s Int)) (! %s :pattern (%s)))", bv, And(rng, body), pats[0]))
 			}
 			return boolVal(fmt.Sprintf("(exists ((%s Int)) %s)", bv, And(rng, body)))
 		case "typeis":
@@ -773,6 +788,9 @@ func (env *Env) evalCall(e *ast.CallExpr) Val {
 				return x
 			}
 			return fc.makeIface(env.st, x, x.Typ, it)
+		case "ghost":
+			name := e.Args[0].(*ast.Ident).Name
+			return boolVal(fc.H(env.st, fc.ghostVar(name)))
 		case "entry":
 			// entry value of a parameter (ignoring loop variables of the same name)
 			sub := *env
@@ -809,6 +827,28 @@ func (env *Env) evalCall(e *ast.CallExpr) Val {
 			body := And(Eq(Select(Select(fc.H(env.st, d), obj), bv), Select(Select(fc.H(env.old, d), obj), bv)),
 				Eq(Select(Select(fc.H(env.st, v), obj), bv), Select(Select(fc.H(env.old, v), obj), bv)))
 			return boolVal(fmt.Sprintf("(forall ((%s Iface)) (! %s :pattern ((select (select %s %s) %s))))", bv, Imp(Not(Eq(bv, k)), body), fc.H(env.st, d), obj, bv))
+		case "mforall":
+			// mforall(k, m, body): body holds for every key k of map m
+			name := e.Args[0].(*ast.Ident).Name
+			m := env.eval(e.Args[1])
+			mt, ok := m.Typ.Underlying().(*types.Map)
+			if !ok {
+				bail("mforall: not a map")
+			}
+			ks := fc.so.sortOf(mt.Key())
+			bv := Sym(strings.ReplaceAll(strings.Trim(fc.sc.Fresh("q."+name), "|"), "~", "_"))
+			sub := *env
+			sub.vars = map[string]Val{}
+			for kk, vv := range env.vars {
+				sub.vars[kk] = vv
+			}
+			sub.vars[name] = Val{T: bv, Sort: ks, Typ: mt.Key()}
+			fc.inQuant++
+			body := sub.evalBool(e.Args[2])
+			fc.inQuant--
+			d, _ := fc.mapHeaps(mt)
+			dom := And(Not(Eq(m.T, "nilR")), Select(Select(fc.H(env.st, d), m.T), bv))
+			return boolVal(fmt.Sprintf("(forall ((%s %s)) (! %s :pattern (%s)))", bv, ks, Imp(dom, body), Select(Select(fc.H(env.st, d), m.T), bv)))
 		case "gforall":
 			// gforall(k, body): quantification over interface-valued keys
 			name := e.Args[0].(*ast.Ident).Name
@@ -1203,7 +1243,7 @@ func (env *Env) applySpec(sp *SpecFn, argExprs []ast.Expr) Val {
 	if len(argExprs) != len(sp.Params) {
 		bail("spec %s: arity", sp.Name)
 	}
-	rec := fc.g.specRecursive(sp.Name)
+	rec := fc.g.specRecursive(sp.Name) || sp.Opaque
 	specEnv := &Env{fc: fc, st: env.st, old: env.old, pkg: fc.g.pkgByPath[sp.PkgPath], vars: map[string]Val{}, unfold: env.unfold, factsP: env.factsP, quantFacts: env.quantFacts, assuming: env.assuming, useLocals: false}
 	if rec {
 		specEnv.unfold++
@@ -1233,6 +1273,10 @@ func (env *Env) applySpec(sp *SpecFn, argExprs []ast.Expr) Val {
 	rs := specSort(fc, rt, sp.Result)
 	if sp.Def != "" && !rec {
 		// non-recursive specification functions are macros
+		if env.macroDepth > 40 {
+			bail("spec %s: macro expansion too deep (missing \"rec\" on a recursive spec function?)", sp.Name)
+		}
+		specEnv.macroDepth = env.macroDepth + 1
 		body := specEnv.eval(parseExprOrBail(sp.Def))
 		if body.Sort == "nil" {
 			body = Val{T: nilOfSort(rs), Sort: rs}
@@ -1247,25 +1291,53 @@ func (env *Env) applySpec(sp *SpecFn, argExprs []ast.Expr) Val {
 		return body
 	}
 	sym := Sym("spec!" + sp.Name)
+	var heapArgs, heapSorts []string
 	if sp.Def != "" && !sp.NoHeap {
-		// heap-reading recursive spec functions are versioned by the heap state they are applied in:
-		// by the terms of the heaps listed in "reads", or by the whole-heap version
+		// heap-reading spec functions: with a "reads" list the current values of those heaps are passed as
+		// leading arguments (two states that agree on them give the same result by congruence);
+		// without one the symbol is versioned by the whole-heap version of the state
 		if len(sp.Reads) > 0 {
-			tok := ""
 			for _, r := range sp.Reads {
-				tok += "/" + fc.H(env.st, fc.heapByShortName(r))
+				for _, h := range specEnv.readHeaps(r) {
+					heapArgs = append(heapArgs, fc.H(env.st, h))
+					heapSorts = append(heapSorts, fc.heapSort[h])
+				}
 			}
-			sym = Sym("spec!" + sp.Name + "@" + hashStr(tok))
 		} else {
 			sym = Sym(fmt.Sprintf("spec!%s@%d", sp.Name, env.st.ver))
 		}
 	}
-	fc.sc.Decl(sym, asorts, rs)
+	fc.sc.Decl(sym, append(append([]string{}, heapSorts...), asorts...), rs)
 	app := sym
-	if len(aterms) > 0 {
-		app = App(sym, aterms...)
+	if len(aterms)+len(heapArgs) > 0 {
+		app = App(sym, append(append([]string{}, heapArgs...), aterms...)...)
 	}
 	res := Val{T: app, Sort: rs, Typ: rt}
+	if sp.Opaque && sp.Def != "" {
+		// quantified definitional axiom, instantiated by E-matching on applications
+		key := "opaque:" + sym + strings.Join(heapArgs, ",")
+		if !fc.pureDone[key] {
+			fc.pureDone[key] = true
+			qEnv := &Env{fc: fc, st: env.st, old: env.old, pkg: fc.g.pkgByPath[sp.PkgPath], vars: map[string]Val{}, unfold: fc.g.UnfoldDepth}
+			var binders, bvars []string
+			for i, prm := range sp.Params {
+				bv := Sym(strings.ReplaceAll(strings.Trim(fc.sc.Fresh("q."+prm.Name), "|"), "~", "_"))
+				v := specEnv.vars[prm.Name]
+				binders = append(binders, fmt.Sprintf("(%s %s)", bv, asorts[i]))
+				bvars = append(bvars, bv)
+				qEnv.vars[prm.Name] = Val{T: bv, Sort: asorts[i], Typ: v.Typ}
+			}
+			fc.inQuant++
+			body := qEnv.eval(parseExprOrBail(sp.Def))
+			fc.inQuant--
+			if body.Sort != rs {
+				bail("spec %s: body sort %s, want %s", sp.Name, body.Sort, rs)
+			}
+			qapp := App(sym, append(append([]string{}, heapArgs...), bvars...)...)
+			fc.sc.Axiom(fmt.Sprintf("(forall (%s) (! (= %s %s) :pattern (%s)))", strings.Join(binders, " "), qapp, body.T, qapp), sym)
+		}
+		return res
+	}
 	if sp.Def != "" && env.unfold < fc.g.UnfoldDepth && fc.inQuant == 0 {
 		key := "spec:" + app
 		if !fc.pureDone[key] {
@@ -1274,10 +1346,51 @@ func (env *Env) applySpec(sp *SpecFn, argExprs []ast.Expr) Val {
 			if body.Sort != rs {
 				bail("spec %s: body sort %s, want %s", sp.Name, body.Sort, rs)
 			}
-			fc.sc.Axiom(Eq(app, body.T), sym)
+			// include the unfolding only in queries that mention this very application
+			trig := map[string]bool{}
+			symbolsOf(app, trig)
+			var tl []string
+			for _, k := range sortedKeys(trig) {
+				if fc.sc.Has(k) {
+					tl = append(tl, k)
+				}
+			}
+			fc.sc.Axiom(Eq(app, body.T), tl...)
 		}
 	}
 	return res
+}
+
+// readHeaps resolves an entry of a "reads" list to heap names:
+//   A!T (elements of []T), H!S!f (field f of struct S), C!T (cells of T), M!K!V (maps), G!name (ghost maps)
+func (env *Env) readHeaps(r string) []string {
+	fc := env.fc
+	parts := strings.Split(r, "!")
+	switch {
+	case parts[0] == "A" && len(parts) == 2:
+		return []string{fc.elemHeap(env.resolveType(parseExprOrBail(parts[1])))}
+	case parts[0] == "C" && len(parts) == 2:
+		return []string{fc.cellHeap(env.resolveType(parseExprOrBail(parts[1])))}
+	case parts[0] == "H" && len(parts) == 3:
+		t := env.resolveType(parseExprOrBail(parts[1]))
+		si := fc.so.structOf(t)
+		for k := 0; k < si.st.NumFields(); k++ {
+			if si.st.Field(k).Name() == parts[2] {
+				if isStruct(si.st.Field(k).Type()) {
+					return fc.leafHeaps(si.st.Field(k).Type())
+				}
+				return []string{fc.fieldHeap(si, k)}
+			}
+		}
+	case parts[0] == "M" && len(parts) == 3:
+		d, v := fc.mapHeaps(types.NewMap(env.resolveType(parseExprOrBail(parts[1])), env.resolveType(parseExprOrBail(parts[2]))))
+		return []string{d, v}
+	case parts[0] == "G" && len(parts) == 2:
+		d, v := fc.ghostHeaps(parts[1])
+		return []string{d, v}
+	}
+	bail("reads: cannot resolve heap %s", r)
+	return nil
 }
 
 func (env *Env) specType(s string) types.Type {
